@@ -19,6 +19,7 @@ from ..common.logger import resonaateLogError, resonaateLogWarning
 from ..physics.bodies import Earth
 from .dynamics_base import Dynamics, DynamicsErrorFlag
 from .integration_events.finite_thrust import ScheduledFiniteThrust
+from .integration_events.scheduled_impulse import ScheduledImpulse
 
 # Type Checking Imports
 if TYPE_CHECKING:
@@ -136,6 +137,29 @@ class Celestial(Dynamics, metaclass=ABCMeta):
 
         return current_state
 
+    @staticmethod
+    def _dropAppliedImpulses(
+        t_events: ndarray,
+        events: list[ScheduledEventType],
+    ) -> list[ScheduledEventType]:
+        r"""Remove scheduled impulses that were just applied from the list of active events.
+
+        An impulse is a one-shot event. The root finder may stop marginally before the impulse time,
+        so if it stayed active the restarted integration would cross its time and apply it again.
+
+        Args:
+            t_events (``ndarray``): times of events that occurred during integration.
+            events (``list``): event functions that were active during integration.
+
+        Returns:
+            ``list``: event functions that remain active for the rest of the propagation.
+        """
+        return [
+            event
+            for event_index, event in enumerate(events)
+            if not (isinstance(event, ScheduledImpulse) and t_events[event_index].size > 0)
+        ]
+
     def propagate(
         self,
         initial_time: ScenarioTime | float,
@@ -198,6 +222,7 @@ class Celestial(Dynamics, metaclass=ABCMeta):
                 events,
                 initial_state,
             )
+            events = self._dropAppliedImpulses(solution.t_events, events)
 
             # Retrieve final time, this should auto-exit the loop if fully-integrated
             initial_time = solution.t[-1] + spacing(solution.t[-1])
@@ -306,6 +331,8 @@ class Celestial(Dynamics, metaclass=ABCMeta):
                 # an event occurs on a `times`
                 if current_time == solution.t[-1]:
                     states[..., -1] = current_state.copy()
+
+                events = self._dropAppliedImpulses(solution.t_events, events)
 
             # [TODO]: This may not be needed?
             # The reshape should give a _view_ into `states`, but this is just in case
